@@ -375,6 +375,11 @@ func (c connectUnaryServerProtocol) requestLine(op *operation, msg proto.Message
 	}
 	buf = op.bufferPool.Wrap(data, buf)
 	defer op.bufferPool.Put(buf)
+	if limit := op.maxMessageSize(); int64(len(data)) > limit {
+		// The message travels in the URL instead of the body, but it is
+		// still the request message and held to the same limit.
+		return "", "", "", false, bufferLimitError(limit)
+	}
 
 	encoded := op.bufferPool.Get()
 	defer op.bufferPool.Put(encoded)
